@@ -72,10 +72,11 @@ def handle (op : String) (args : List Sx) : Option Sx :=
   | "c04.strip", [s] => do pure (ofCodes (strip (← asCodes s)))
   | "c04.cmd", [env, globs, keeps, atoms, bang] => do
     let e ← decEnv env
+    let flags : Option (List Bool) := (asListOf asBool keeps).bind (fun l => if l.length == 3 then some l else none)
     let globs ← asListOf (fun
       | .list [p, rs] => do pure (← asCodes p, ← asListOf asCodes rs)
       | _ => none) globs
-    let cfg : Args.Cfg := { env := e, glob := fun p => (globs.lookup p).getD [], fstrKeepsRaw := ← asBool keeps }
+    let cfg : Args.Cfg := { env := e, glob := fun p => (globs.lookup p).getD [], fstrKeepsRaw := (← flags)[0]!, linesCutAtLB := (← flags)[1]!, bangNeedsList := (← flags)[2]! }
     let atoms ← asListOf decAtom atoms
     let bang ← asOpt (fun
       | .list [lb, t] => do pure (← asBool lb, ← asCodes t)
